@@ -7,6 +7,7 @@
 From Coq Require Import ZArith Reals List Bool Lra Lia.
 From Coq Require Import PrimFloat.
 From EV Require Import Base.Arith Model.Pchip Model.PchipAD.
+From EV Require Proofs.PchipProofs.   (* only same_sign_mask_R: the sign test of Model/Pchip.v over R *)
 Import ListNotations.
 Open Scope R_scope.
 
@@ -88,7 +89,8 @@ Qed.
 (* the fixed interior slope, concretely (straight-line code: evaluate the recording) *)
 Lemma safe_interior_slope_fixed dl dr hl hr : 0 < hl -> 0 < hr -> safe (b_interior_slope RA true dl dr hl hr).
 Proof.
-  intros Hl Hr s. unfold b_interior_slope, b_whm, bind, const, div, add, where_, push. simpl.
+  intros Hl Hr s. unfold b_interior_slope. rewrite PchipProofs.same_sign_mask_R.
+  unfold b_whm, bind, const, div, add, where_, push. simpl.
   eexists [_; _; _; _; _; _; _; _; _; _; _; _; _]. split; [reflexivity|].
   destruct (Rltb 0 (snd dl * snd dr)) eqn:Em.
   - apply Rltb_true in Em. repeat constructor; simpl.
